@@ -51,7 +51,7 @@ def run_suite(root):
 
 
 def run_check(pid, root, tier, cases, seed):
-    env = dict(os.environ, VERIF_REPO=root, VERIF_SEED=str(seed))
+    env = dict(os.environ, VERIF_REPO=root, VERIF_SEED=str(seed), VERIF_SKIP_REPLAYS='1')
     cmd = [os.path.join(VERIF, 'vcheck'), pid, tier, '--no-evidence']
     if cases:
         cmd += ['--cases', str(cases)]
@@ -101,7 +101,9 @@ def main():
                 if a.v or key == 'error':
                     print(tail)
             exp_quiet = m.get('preserving', False)
-            rec['ok'] = (not rec['fired']) if exp_quiet else all(t in rec['fired'] for t in m['targets'] if t in checks)
+            rec['ok'] = (not rec['fired']) if exp_quiet else (
+                all(t in rec['fired'] for t in m['targets'] if t in checks) and
+                not any(t in rec['fired'] for t in m.get('quiet_in', [])))
             results.append(rec)
         finally:
             shutil.rmtree(root, ignore_errors=True)
